@@ -599,7 +599,6 @@ Proof.
       apply (Hmin e). apply (simp_fuel_mono _ _ _ Hme). exact Hm. }
     assert (Hnreach : forall k r', reach c3 k e -> simp g k <> SOk r').
     { intros k r' Hr Hk. apply (Hmin r'). eapply reach_desc; eassumption. }
-    assert (Hupd : forall k o', chases c3 k o' -> simp g k <> SOk r -> True) by auto. clear Hupd.
     assert (Hnew4 : exists o', chases c3 new o' /\ chases c4 new o').
     { destruct (Hwf3 new) as [o' [m Hm]]. exists o'. split; [exists m; exact Hm|].
       destruct (chase_update_or_reach c3 e new _ _ _ Hm) as [H|H]; [exact H|].
@@ -645,3 +644,153 @@ Proof.
       exists c5. split; [|split; [exact Hok5|split; [exact Hre|eapply steps_trans; eassumption]]].
       eapply ext_trans; [exact He23|]. apply (ext_via_update c3 e new c5 Hwf3 He45 Hre).
 Qed.
+
+Lemma In_rev_iff (l : list expr) x : In x (rev l) <-> In x l.
+Proof. symmetry. apply in_rev. Qed.
+
+Theorem big_step : forall n, BS n.
+Proof.
+  induction n as [|g IH]; intros e r Hs c rest Hok Hnp; [discriminate|].
+  destruct (simp g e) as [r'| |] eqn:Eg.
+  { (* not the least fuel: one level down *)
+    assert (r' = r) by (eapply simp_deterministic; eassumption). subst r'.
+    apply (IH e r Eg c rest Hok). apply (nopend_le (S g)); [lia|exact Hnp]. }
+  all: assert (Hmin : forall r', simp g e <> SOk r') by (intros r' Hc; congruence).
+  all: destruct (simp_step_inv _ _ _ Hs) as (cs0 & o0 & HF0 & _ & _).
+  all: destruct (visit_spec (children e) c Hok) as (B & c1 & cs & chg & miss & HV & He1 & Hok1 & Hres & Hsub & _).
+  all: destruct miss as [|m ms];
+    [exact (phase3 g e r IH Hs Hmin c rest B c1 cs chg Hok Hnp HV He1 Hok1)|].
+  all: pose proof (steps_visit_missing c e rest B c1 cs chg m ms HV) as Hst1.
+  all: destruct (BS_list g IH (rev (m :: ms)) c1 (e :: rest)) as (c2 & He2 & Hok2 & Hr2 & Hst2);
+    [intros x Hx; apply (F2_simp_In _ _ _ HF0); apply Hsub; apply In_rev_iff; exact Hx
+    |exact Hok1
+    |apply (nopend_le (S g)); [lia|]; eapply nopend_ext; eassumption|].
+  all: assert (Hnp2 : nopend (S g) c2) by (eapply nopend_ext; [exact He2|eapply nopend_ext; eassumption]).
+  all: destruct (visit_spec (children e) c2 Hok2) as (B' & c3 & cs' & chg' & miss' & HV' & He3 & Hok3 & _ & _ & Hall).
+  all: assert (miss' = []) by
+    (apply Hall; intros ch Hch; destruct (Hres ch Hch) as [H|H];
+     [apply (proj1 He2); exact H|apply Hr2; apply In_rev_iff; exact H]).
+  all: subst miss'.
+  all: destruct (phase3 g e r IH Hs Hmin c2 rest B' c3 cs' chg' Hok2 Hnp2 HV' He3 Hok3) as (c' & He' & Hok' & Hre & Hst3).
+  all: exists c'; split; [eapply ext_trans; [exact He1|eapply ext_trans; eassumption]|];
+    split; [exact Hok'|split; [exact Hre|]];
+    eapply steps_trans; [exact Hst1|eapply steps_trans; eassumption].
+Qed.
+
+(** ** the invariant at quiescent points *)
+Definition cache_good (c : cache) : Prop :=
+  cache_inv c /\ linked c /\ (forall k, haskey c k -> resolved c k).
+
+Lemma cache_good_nil : cache_good [].
+Proof.
+  split; [apply cache_inv_nil|split].
+  - intros k v H. discriminate.
+  - intros k [v H]. discriminate.
+Qed.
+
+Lemma cache_good_inv c : cache_good c -> cache_inv c.
+Proof. intros H. exact (proj1 H). Qed.
+
+Lemma good_ok c : cache_good c -> ok c.
+Proof.
+  intros (Hinv & Hlk & Hres). split; [exact Hinv|split; [|exact Hlk]].
+  intros k. destruct (lookup c k) as [v|] eqn:El.
+  - destruct (Hres k (ex_intro _ v El)) as [f Hf]. exists (Some f). exact Hf.
+  - exists None. apply chases_nokey. exact El.
+Qed.
+
+Lemma good_nopend c n : cache_good c -> nopend n c.
+Proof.
+  intros (_ & _ & Hres) k Hp. exfalso. eapply resolved_not_pending; [apply Hres; exact (proj1 Hp)|exact Hp].
+Qed.
+
+Lemma good_ext c c' : cache_good c -> ext c c' -> ok c' -> cache_good c'.
+Proof.
+  intros Hg (_ & E2 & _) (Hinv & Hwf & Hlk). split; [exact Hinv|split; [exact Hlk|]].
+  intros k Hk. destruct (wf_cases _ _ Hwf Hk) as [H|H]; [exact H|].
+  exfalso. pose proof (E2 _ H) as Hp.
+  eapply resolved_not_pending; [apply (proj2 (proj2 Hg)); exact (proj1 Hp)|exact Hp].
+Qed.
+
+(** ** completeness *)
+Theorem simplify_cached_complete_strong : forall c e r, cache_good c -> NF e r ->
+  exists F c', cache_good c' /\ forall fuel, (F <= fuel)%nat -> simplify_cached fuel c e = (c', SOk r).
+Proof.
+  intros c e r Hg [n Hn].
+  destruct (big_step n e r Hn c [] (good_ok _ Hg) (good_nopend _ _ Hg)) as (c1 & He1 & Hok1 & Hr1 & Hst).
+  destruct (steps_final _ _ _ Hst) as [F1 HF1].
+  destruct (gfp_spec c1 e Hok1) as (B & G & HG & Hspec).
+  destruct G as [c2 fv|c2|]; cbn [gspec] in Hspec; [|exfalso; apply (proj2 Hspec); exact Hr1|contradiction].
+  destruct Hspec as (He2 & Hok2 & Hfv).
+  assert (fv = r).
+  { eapply NF_det; [eapply resolved_nf; [exact (proj1 Hok1)|exact Hfv]|exists n; exact Hn]. }
+  subst fv. exists (Nat.max F1 B), c2. split.
+  - eapply good_ext; [exact Hg|eapply ext_trans; eassumption|exact Hok2].
+  - intros fuel Hf. unfold simplify_cached. rewrite (HF1 fuel) by lia. rewrite (HG fuel) by lia. reflexivity.
+Qed.
+
+Theorem simplify_cached_complete :
+  forall c e r, cache_good c -> NF e r ->
+    exists F, forall fuel, (F <= fuel)%nat ->
+      exists c', simplify_cached fuel c e = (c', SOk r) /\ cache_good c'.
+Proof.
+  intros c e r Hg Hnf. destruct (simplify_cached_complete_strong c e r Hg Hnf) as (F & c' & Hg' & H).
+  exists F. intros fuel Hf. exists c'. split; [apply H; exact Hf|exact Hg'].
+Qed.
+
+(** every returning call preserves the invariant, whatever the fuel it was given *)
+Theorem simplify_cached_good : forall fuel c e c' r,
+  cache_good c -> simplify_cached fuel c e = (c', SOk r) -> cache_good c'.
+Proof.
+  intros fuel c e c' r Hg H.
+  pose proof (proj2 (simplify_cached_sound _ _ _ _ _ (proj1 Hg) H)) as Hnf.
+  destruct (simplify_cached_complete_strong c e r Hg Hnf) as (F & c'' & Hg'' & HF).
+  pose proof (simplify_cached_mono _ _ _ _ _ H ltac:(discriminate) (Nat.max fuel F) (Nat.le_max_l _ _)) as A.
+  rewrite (HF (Nat.max fuel F) (Nat.le_max_r _ _)) in A. inversion A; subst. exact Hg''.
+Qed.
+
+Theorem simplify_cached_iff : forall c e r, cache_good c ->
+  (NF e r <-> exists fuel c', simplify_cached fuel c e = (c', SOk r)).
+Proof.
+  intros c e r Hg. split.
+  - intros Hnf. destruct (simplify_cached_complete_strong c e r Hg Hnf) as (F & c' & _ & HF).
+    exists F, c'. apply HF. apply le_n.
+  - intros (fuel & c' & H). exact (proj2 (simplify_cached_sound _ _ _ _ _ (proj1 Hg) H)).
+Qed.
+
+(** ** a whole history with one instance *)
+Theorem simplify_batch_complete : forall es rs c, cache_good c -> Forall2 NF es rs ->
+  exists F c', cache_good c' /\
+    forall fuel, (F <= fuel)%nat -> simplify_batch fuel c es = (c', map SOk rs).
+Proof.
+  intros es rs c Hg HF. revert c Hg. induction HF as [|e r es rs Hnf _ IH]; intros c Hg.
+  - exists O, c. split; [exact Hg|]. intros; reflexivity.
+  - destruct (simplify_cached_complete_strong c e r Hg Hnf) as (F1 & c1 & Hg1 & H1).
+    destruct (IH c1 Hg1) as (F2 & c2 & Hg2 & H2).
+    exists (Nat.max F1 F2), c2. split; [exact Hg2|]. intros fuel Hf.
+    cbn [simplify_batch map]. rewrite (H1 fuel) by lia. rewrite (H2 fuel) by lia. reflexivity.
+Qed.
+
+(** the caches reachable from a fresh instance by returning calls *)
+Inductive reachable : cache -> Prop :=
+| reachable_nil : reachable []
+| reachable_call c fuel e c' r : reachable c -> simplify_cached fuel c e = (c', SOk r) -> reachable c'.
+
+Theorem reachable_good c : reachable c -> cache_good c.
+Proof. induction 1; [apply cache_good_nil|eapply simplify_cached_good; eassumption]. Qed.
+
+Theorem simplify_cached_complete_reachable : forall c e r, reachable c -> NF e r ->
+  exists F, forall fuel, (F <= fuel)%nat -> exists c', simplify_cached fuel c e = (c', SOk r) /\ reachable c'.
+Proof.
+  intros c e r Hr Hnf. destruct (simplify_cached_complete c e r (reachable_good _ Hr) Hnf) as [F HF].
+  exists F. intros fuel Hf. destruct (HF fuel Hf) as (c' & H & _). exists c'. split; [exact H|].
+  eapply reachable_call; eassumption.
+Qed.
+
+Print Assumptions big_step.
+Print Assumptions simplify_cached_complete.
+Print Assumptions simplify_cached_good.
+Print Assumptions simplify_cached_iff.
+Print Assumptions simplify_batch_complete.
+Print Assumptions simplify_cached_complete_reachable.
+Print Assumptions cache_good_nil.
